@@ -125,6 +125,7 @@ class TU:
         self.parent = {}     # id -> enclosing record node (for methods/fields)
         self.funcs = {}      # qualified name -> [node with body]
         self.records = {}    # qualified record name -> node (complete definition)
+        self.roots = objs    # top-level nodes of the dump (for whole-TU scans)
         for o in objs:
             self._walk(o, '', None)
 
